@@ -296,6 +296,61 @@ func streamOut(err error, w *planWriter) []int64 {
 	return append(o, PutList(w.sizes)...)
 }
 
+// ---- lifetime of a result.  A returned []byte must stay what it was when the call returned: it must not share memory with
+// anything a LATER call writes to (a pooled / package-level scratch buffer the result is a sub-slice of).  For half of the
+// cases (c09Delayed, a fixed function of the case) the result of the observed call is read only after the same function
+// and its sibling entry point have been called again on two other well-formed inputs (another message and secret, one of
+// the size of the observed result, one larger), results discarded; the other half reads it at once as before.
+func c09Delayed(text, secret []byte) bool {
+	x := len(text)
+	for _, b := range text {
+		x += int(b)
+	}
+	for _, b := range secret {
+		x += int(b)
+	}
+	return x&1 == 1
+}
+
+func c09Disturb(kind int64, n int) {
+	secret, salt, ad := []byte("a disturbing secret"), []byte("DISTURB!"), []byte("other ad")
+	for _, m := range []int{n, 2*n + 100} {
+		p := bytes.Repeat([]byte{0xA5}, m)
+		switch kind {
+		case 1, 5:
+			raw := refCBCMessage(p, secret, salt)
+			_, _ = cryptz.SaltBySecretCBCDecrypt(append([]byte{}, raw...), secret, kind == 5 && m == n)
+			_, _ = cryptz.Decrypt([]byte(base64.StdEncoding.EncodeToString(raw)), secret)
+			if kind == 5 {
+				_, _ = cryptz.SaltBySecretCBCDecrypt(raw, string(secret), false)
+			}
+		case 3, 7:
+			raw := refGCMMessage(p, secret, salt, ad)
+			_, _ = cryptz.SaltBySecretGCMDecrypt(append([]byte{}, raw...), secret, ad, kind == 7 && m == n)
+			_, _ = cryptz.GCMDecrypt([]byte(hex.EncodeToString(raw)), secret, ad)
+			if kind == 7 {
+				_, _ = cryptz.SaltBySecretGCMDecrypt(raw, string(secret), ad, false)
+			}
+		case 0, 4: // the real random source, under the lock that guards the pinned one
+			randMu.Lock()
+			_, _ = cryptz.SaltBySecretCBCEncrypt(p, secret)
+			_, _ = cryptz.Encrypt(p, secret)
+			if kind == 4 {
+				_, _ = cryptz.SaltBySecretCBCEncrypt(string(p), secret)
+			}
+			randMu.Unlock()
+		case 2, 6:
+			randMu.Lock()
+			_, _ = cryptz.SaltBySecretGCMEncrypt(p, secret, ad)
+			_, _ = cryptz.GCMEncrypt(p, secret, ad)
+			if kind == 6 {
+				_, _ = cryptz.SaltBySecretGCMEncrypt(string(p), secret, ad)
+			}
+			randMu.Unlock()
+		}
+	}
+}
+
 func c09Impl(in []int64) []int64 {
 	kind, a, b, c, d := in[0], in[1], in[2], in[3], in[4]
 	l1, r := GetList(in[6:])
@@ -305,9 +360,13 @@ func c09Impl(in []int64) []int64 {
 	l5, _ := GetList(r)
 	text, secret, salt, ad := exact(ToBytes(l1)), exact(ToBytes(l2)), ToBytes(l3), exact(ToBytes(l4))
 	sStr, tStr, aStr := c&1 != 0, c&2 != 0, c&4 != 0
+	delayed := kind >= 0 && kind <= 7 && c09Delayed(text, secret)
 	res := func(out []byte, err error) []int64 {
 		if err != nil {
 			return []int64{1, cryptErrCode(err)}
+		}
+		if delayed {
+			c09Disturb(kind, len(out))
 		}
 		return append([]int64{0}, Bytes(out)...)
 	}
@@ -440,6 +499,9 @@ func c09Impl(in []int64) []int64 {
 		}
 		if err != nil {
 			return []int64{1, cryptErrCode(err)}
+		}
+		if delayed {
+			c09Disturb(kind, len(out))
 		}
 		o := append([]int64{0}, PutList(Bytes(out))...)
 		return append(o, PutList(Bytes(text))...)
@@ -1153,6 +1215,9 @@ func c09Describe(in []int64) string {
 	if k >= 10 {
 		s = fmt.Sprintf("%s: text of %d bytes beginning %q, secret %q", names[k], len(l1), ToBytes(clip(l1, 32)), ToBytes(l2))
 	}
+	if k <= 7 && c09Delayed(exact(ToBytes(l1)), exact(ToBytes(l2))) {
+		s += "; the result is read AFTER further calls of the same function and its sibling on other inputs (c09Disturb): it must not share memory with what a later call writes"
+	}
 	if k == 0 || k == 2 || k == 4 || k == 6 || k == 8 || k == 10 {
 		s += fmt.Sprintf(", salt %x, random source ok=%d", ToBytes(l3), in[2])
 	}
@@ -1230,7 +1295,7 @@ func init() {
 }
 
 func init() {
-	Register(&Prop{ID: "C09", Num: 9, SpecMode: "rel", Gen: c09Gen, Impl: c09Impl, Oracle: stdOracle,
+	Register(&Prop{ID: "C09", Num: 9, SpecMode: "rel", Gen: c09Gen, Impl: c09Impl, Oracle: stdOracle, Pure: true,
 		Shrink: c09Shrink, Describe: c09Describe, XProj: c09XProj,
-		Rule: "Encrypt / SaltBySecretCBCEncrypt / GCMEncrypt / SaltBySecretGCMEncrypt on every plaintext length 0..80 (thorough 0..160) with the salt pinned through crypto/rand.Reader (plus a run with the real source whose salt is read back and re-pinned: outputs must agree), string and []byte secrets; Decrypt / GCMDecrypt / SaltBySecret*Decrypt (reuse on/off, final buffer compared) on messages built independently (EVP_BytesToKey + library CBC/GCM); every single-character corruption (another symbol of the alphabet / a foreign symbol / one bit) and every truncation of base64, hex, raw CBC, raw GCM and stream ciphertexts; changed secret / additional data for GCM (must be rejected); garbage and boundary-length inputs with and without the magic; streams: chunk plans whole / 1-byte / 7-byte / 16+rest / random with zero-length reads / random, terminal EOF alone / EOF with the last data / injected error, read buffers 32768 (io.Copy) and 1,5,16,17,64 (io.ReaderFrom), writers failing after k writes; a failing random source; sources with io.WriterTo (the harness's own with every plan, bytes.Reader, bytes.Buffer, strings.Reader, bufio.Reader: io.Copy bypasses its buffer, each chunk is one Write of its full size) on short streams (0..257 bytes, full model) and on long ones (quick: each source with one Write of 32769 bytes, two of them also 65537 / a random length up to 70000, lengths 2^k+1 for k = 10..14 and 32768, several-buffer streams through the plain reader, plans whole / 32 KiB pieces / mixed large pieces, decryption into buffers of 32768, 40000, 65536, stream size; thorough: the grid 2^k-1, 2^k, 2^k+1 for k = 10..17, 40000, 100000, 200000 x source x plan): there every byte is judged, the model is compared on result code, number of bytes and write sizes (kinds 10/11). The model computes with the real AES/GCM/MD5/base64 through the oracle table; the judge derives the expected bytes independently (EVP definition, PKCS#7 definition, library whole-message CBC/CTR/GCM). distinct = distinct case; non-trivial = the input is at least a header long or an encryption/stream case"})
+		Rule: "Encrypt / SaltBySecretCBCEncrypt / GCMEncrypt / SaltBySecretGCMEncrypt on every plaintext length 0..80 (thorough 0..160) with the salt pinned through crypto/rand.Reader (plus a run with the real source whose salt is read back and re-pinned: outputs must agree), string and []byte secrets; Decrypt / GCMDecrypt / SaltBySecret*Decrypt (reuse on/off, final buffer compared) on messages built independently (EVP_BytesToKey + library CBC/GCM); every single-character corruption (another symbol of the alphabet / a foreign symbol / one bit) and every truncation of base64, hex, raw CBC, raw GCM and stream ciphertexts; changed secret / additional data for GCM (must be rejected); garbage and boundary-length inputs with and without the magic; streams: chunk plans whole / 1-byte / 7-byte / 16+rest / random with zero-length reads / random, terminal EOF alone / EOF with the last data / injected error, read buffers 32768 (io.Copy) and 1,5,16,17,64 (io.ReaderFrom), writers failing after k writes; a failing random source; sources with io.WriterTo (the harness's own with every plan, bytes.Reader, bytes.Buffer, strings.Reader, bufio.Reader: io.Copy bypasses its buffer, each chunk is one Write of its full size) on short streams (0..257 bytes, full model) and on long ones (quick: each source with one Write of 32769 bytes, two of them also 65537 / a random length up to 70000, lengths 2^k+1 for k = 10..14 and 32768, several-buffer streams through the plain reader, plans whole / 32 KiB pieces / mixed large pieces, decryption into buffers of 32768, 40000, 65536, stream size; thorough: the grid 2^k-1, 2^k, 2^k+1 for k = 10..17, 40000, 100000, 200000 x source x plan): there every byte is judged, the model is compared on result code, number of bytes and write sizes (kinds 10/11). The model computes with the real AES/GCM/MD5/base64 through the oracle table; the judge derives the expected bytes independently (EVP definition, PKCS#7 definition, library whole-message CBC/CTR/GCM). Lifetime of results: for half of the cases of kinds 0..7 (parity of length + byte sum of text and secret) the returned slice is read only after the same function and its sibling were called again on two other well-formed inputs (same and larger size), for the other half at once; a sample of the cases is re-run from 16 goroutines at the same time (Prop.Pure; crypto/rand.Reader pinned under a mutex). distinct = distinct case; non-trivial = the input is at least a header long or an encryption/stream case"})
 }
